@@ -155,6 +155,21 @@ def replay_case(arg):
                 fail('Differential', 'dpsi', dict(model=name, got=np.asarray(dpsi).tolist(), expected=exp_dpsi.tolist()))
             if np.asarray(dth).shape != exp_dtheta.shape or not interp.close(np.asarray(dth, dtype=float), exp_dtheta):
                 fail('Differential', 'dtheta', dict(model=name, got=np.asarray(dth).tolist(), expected=exp_dtheta.tolist()))
+            # ---- the hierarchical form (reduce=True): for leaves with individual-level parameters the two blocks above joined;
+            # for a pooled leaf psi_i = vartheta_0 + sum_c beta_c chi_ic IS a function of the population parameters, so the
+            # upstream sensitivities reach vartheta_0 (summed over individuals) AND every beta (weighted by the covariate)
+            with warnings.catch_warnings():
+                warnings.simplefilter('error', RuntimeWarning)
+                out_r = cpm.compute_sensitivities(full.copy(), obs.copy(), cv.copy(), dlogp_dpsi=w.copy(), reduce=True)
+            cnt['evaluations'] = cnt.get('evaluations', 0) + 1
+            g_r = np.asarray(out_r[1], dtype=float)
+            if cls == 'PooledModel':
+                exp_r = np.concatenate([w.sum(axis=0)] + [np.array([np.sum(w[:, d] * cv[:, c]) for c in range(nc)])
+                                                          for (p, d) in norm0])
+            else:
+                exp_r = np.concatenate([exp_dpsi.flatten(), exp_dtheta])
+            if not interp.close(out_r[0], exp_ll) or g_r.shape != exp_r.shape or not interp.close(g_r, exp_r):
+                fail('Differential', 'hierarchical_form', dict(model=name, got=g_r.tolist(), expected=exp_r.tolist()))
             # ---- sampling: an integer seed and the generator made from it give the same draws, and the individuals of one call
             # are drawn independently (no two rows share their standardised noise)
             if cls in ('GaussianModel', 'LogNormalModel') and ni >= 2:
